@@ -21,6 +21,7 @@ CONSTANTS
   GenDefaults = {"b"}
   GenLiteOmit = {2}
   GenFixedSub = {"all"}
+  GenFullKinds = {"ReadOk", "ReadRaise", "ReadInvalid", "Write", "Assign", "AnnounceErr", "Untouched"}
   GenExtra = {"Nest"}
 CONSTRAINT Bound
 INVARIANT EmitMax
